@@ -77,18 +77,22 @@ Section Spec.
   (* ---------------------------------------------------------------- verification *)
   (* digest of node x determined by the claim L and the supplied structure A, for a tree of n leafs;
      k = number of levels below x *)
-  Fixpoint val (n : Z) (L : list (Z * D)) (A : list D) (k : nat) (x : Z) : D :=
+  Fixpoint val_in (M : list Z) (n : Z) (L : list (Z * D)) (A : list D) (k : nat) (x : Z) : D :=
     match find_leaf L (x - n) with
     | Some d => d
     | None =>
-        match pos_of x (minimal_list n (map fst L)) with
+        match pos_of x M with
         | Some j => nth j A dflt
         | None => match k with
                   | O => dflt
-                  | S k' => H (val n L A k' (2 * x)) (val n L A k' (2 * x + 1))
+                  | S k' => H (val_in M n L A k' (2 * x)) (val_in M n L A k' (2 * x + 1))
                   end
         end
     end.
+  (* M is always the minimal list of the claimed indices (a separate argument only so that the
+     executable form computes it once) *)
+  Definition val (n : Z) (L : list (Z * D)) (A : list D) (k : nat) (x : Z) : D :=
+    val_in (minimal_list n (map fst L)) n L A k x.
 
   Definition consistent (L : list (Z * D)) : Prop :=
     forall i d d', In (i, d) L -> In (i, d') L -> d = d'.
@@ -104,11 +108,13 @@ Section Spec.
      val n (ip_leafs p) (ip_auth p) (Z.to_nat h) 1 = root).
 
   (* the authentication path of leaf i in the partial tree: siblings from the leaf level upwards *)
-  Fixpoint sibling_path (n : Z) (L : list (Z * D)) (A : list D) (h : nat) (x : Z) (lvl : nat) : list D :=
+  Fixpoint sibling_path_in (M : list Z) (n : Z) (L : list (Z * D)) (A : list D) (h : nat) (x : Z) (lvl : nat) : list D :=
     match lvl with
     | O => []
-    | S l' => val n L A (h - lvl) (spec_sibling x) :: sibling_path n L A h (x / 2) l'
+    | S l' => val_in M n L A (h - lvl) (spec_sibling x) :: sibling_path_in M n L A h (x / 2) l'
     end.
+  Definition sibling_path (n : Z) (L : list (Z * D)) (A : list D) (h : nat) (x : Z) (lvl : nat) : list D :=
+    sibling_path_in (minimal_list n (map fst L)) n L A h x lvl.
 
   (* a collision of the pair hash *)
   Definition collision : Prop := exists a b c d, (a, b) <> (c, d) /\ H a b = H c d.
@@ -141,7 +147,8 @@ Section Spec.
   Definition paths_spec (p : iproof D) : option (list (list D)) :=
     if structure_ok_b p then
       let h := ip_height p in
-      Some (map (fun i => sibling_path (2 ^ h) (ip_leafs p) (ip_auth p) (Z.to_nat h) (2 ^ h + i) (Z.to_nat h))
+      let M := minimal_list (2 ^ h) (map fst (ip_leafs p)) in
+      Some (map (fun i => sibling_path_in M (2 ^ h) (ip_leafs p) (ip_auth p) (Z.to_nat h) (2 ^ h + i) (Z.to_nat h))
                 (map fst (ip_leafs p)))
     else None.
 End Spec.
